@@ -275,6 +275,8 @@ pub fn ev_arith(ty: &str, op: &str, a: U256, b: U256, c: U256) -> Value {
     let (da, db) = (Decimal256(a), Decimal256(b));
     let r = match (ty, op) {
         ("u256", "add") => r256(guard(|| (ua + ub).0)),
+        // the compound-assignment spelling of the same sum (a separate impl in the library)
+        ("u256", "addassign") => r256(guard(|| { let mut x = ua; x += ub; x.0 })),
         ("u256", "sub") => r256(guard(|| (ua - ub).0)),
         ("u256", "mul") => r256(guard(|| (ua * ub).0)),
         ("u256", "muldec") => r256(guard(|| (ua * db).0)),
@@ -288,6 +290,7 @@ pub fn ev_arith(ty: &str, op: &str, a: U256, b: U256, c: U256) -> Value {
         ("u256", "from128") => r256(u256_to_u128(&a).and_then(|v| guard(|| Uint256::from(Uint128::new(v)).0))),
         ("u256", "cmp") => json!({"ok": true, "v": cmp_code(ua.cmp(&ub))}),
         ("dec256", "add") => r256(guard(|| (da + db).0)),
+        ("dec256", "addassign") => r256(guard(|| { let mut x = da; x += db; x.0 })),
         ("dec256", "sub") => r256(guard(|| (da - db).0)),
         ("dec256", "mul") => r256(guard(|| (da * db).0)),
         ("dec256", "div") => r256(guard(|| (da / db).0)),
@@ -816,7 +819,8 @@ pub fn run(seed: u64, n: usize, kinds: &[String], out: &mut dyn Write) -> std::i
             if !want("arith") {
                 continue;
             }
-            let ops: [(&str, &str); 17] = [
+            let ops: [(&str, &str); 19] = [
+                ("u256", "addassign"), ("dec256", "addassign"),
                 ("u256", "add"), ("u256", "sub"), ("u256", "mul"), ("u256", "muldec"), ("u256", "decmul"),
                 ("u256", "divdec"), ("u256", "mulratio"), ("u256", "to128"), ("u256", "from128"), ("u256", "cmp"),
                 ("dec256", "add"), ("dec256", "sub"), ("dec256", "mul"), ("dec256", "div"),
